@@ -293,7 +293,7 @@ func (c *c06env) variants(arch, format string, it *insts.InstType) []desc {
 		for k, off := range offs {
 			f := map[string]uint32{"addr": c06Addr, "data": c06Data, "vdst": c06Dst, "saddr": 0x7f, "offset": off}
 			if k == 3 {
-				f["saddr"] = c06SBase
+				f["saddr"], f["seg"] = c06SBase, 2 // global_* with SADDR (the FLAT segment has no scalar base)
 			}
 			add("flat", f, false)
 		}
